@@ -44,7 +44,7 @@ def r_dec(rng, maxdeg):
 class C20(CheckBase):
     id = 'C20'
     title = 'The HTTP API returns exactly what the library computes'
-    quick_runs = 500
+    quick_runs = 800
     thorough_runs = 30000
     quick_budget_s = 60
     thorough_budget_s = 1200
@@ -117,7 +117,43 @@ class C20(CheckBase):
                  'ell_dist': rng.choice([round(rng.uniform(1, 2e6), 3), 54972.271, float(rng.randrange(1, 100000)), 0.001, 1.9e7])}
         return {'rid': rid, 'ep': ep, 'from': fa, 'to': ta, 'params': dict((k, repr(float(v))) for k, v in p.items())}
 
+    REQ_TYPES = [('index', None, None)] + [(ep, fa, ta) for ep in ('vincinv', 'vincdir') for fa in ('dd', 'dms', None)
+                                            for ta in ('dd', 'dms', None)]
+    N_PAIR_SWEEP = len(REQ_TYPES) ** 2
+
+    def _typed_request(self, rng, rid, typ):
+        ep, fa, ta = typ
+        for _ in range(200):
+            r = self.gen_request(rng, rid)
+            if r['ep'] == ep:
+                break
+        if ep == 'index':
+            return {'rid': rid, 'ep': 'index', 'from': None, 'to': None, 'params': {'n': str(rid)}}
+        # regenerate the arguments in the requested input notation
+        saved = rng.getstate()
+        for _ in range(400):
+            r = self.gen_request(rng, rid)
+            if (r['ep'], r['from']) == (ep, fa):
+                r['to'] = ta
+                return r
+        rng.setstate(saved)
+        r['from'], r['to'] = fa, ta
+        return r
+
+    def _pair_trace(self, rng, j):
+        """Systematic part (both tiers): every ordered pair of request types (endpoint x from x to, plus the
+        index route) served by two clients: A and B overlap under a seeded schedule, then both are repeated."""
+        ta, tb = self.REQ_TYPES[j // len(self.REQ_TYPES)], self.REQ_TYPES[j % len(self.REQ_TYPES)]
+        ra, rb = self._typed_request(rng, 0, ta), self._typed_request(rng, 1, tb)
+        ops = [{'id': 0, 'req': 0, 'client': 0, 'abort': None}, {'id': 1, 'req': 1, 'client': 1, 'abort': None},
+               {'id': 2, 'req': 1, 'client': 0, 'abort': None, 'dup': True}, {'id': 3, 'req': 0, 'client': 1, 'abort': None, 'dup': True}]
+        return {'property': 'C20', 'threads': 2, 'requests': [ra, rb], 'ops': ops, 'faults': [],
+                'sched': {'mode': 'rng', 'seed': rng.getrandbits(64)}, 'switches': [], 'shuffle_seed': rng.getrandbits(32),
+                'pair_sweep': True}
+
     def generate(self, rng, i, tier):
+        if i < self.N_PAIR_SWEEP:
+            return self._pair_trace(rng, i)
         T = rng.choice([1, 2, 2, 3, 3, 4, 5, 6])
         nreq = rng.choice([5, 8, 12, 20, 30, 40])
         reqs = []
@@ -378,6 +414,8 @@ class C20(CheckBase):
             bump('probe:two_handlers_in_flight_different_angle_types')
         if probe['dup_conc']:
             bump('probe:duplicate_delivered_concurrently')
+        if trace.get('pair_sweep'):
+            bump('pair_sweep_runs')
         if any('near_repeat_of' in r for r in trace['requests']):
             bump('probe:near_repeat_request')
         if any(r['from'] == 'dms' and any(v.startswith('-') for v in r['params'].values()) for r in trace['requests']):
